@@ -12,3 +12,17 @@ func simHeapAlloc(i *InMemCollector, v uint64) uint64 {
 	}
 	return v
 }
+
+// SimOutgoingQueueCap, when set by the simulation harness, replaces the
+// capacity of the collector's outgoing queue (tracesToSend), so that "the
+// outgoing queue is full" is reachable with a handful of traces.
+var SimOutgoingQueueCap func(i *InMemCollector) int
+
+func outgoingQueueCap(i *InMemCollector, n int) int {
+	if SimOutgoingQueueCap != nil {
+		if c := SimOutgoingQueueCap(i); c > 0 {
+			return c
+		}
+	}
+	return n
+}
